@@ -50,7 +50,8 @@ def rule_CF(ctx, tier):
         bb, v = w[0]
         s = og.show(v)
         if f["ty"].startswith("std::option::Option<"):
-            some = any(fc[0] == "truth" and fc[2] is True and has_call(fc[1], "Option", "is_some") and ("f:" + name) in og.show(fc[1]) for fc in facts_at(ctx, b, bb))
+            some = any((fc[0] == "truth" and fc[2] is True and has_call(fc[1], "Option", "is_some") and ("f:" + name) in og.show(fc[1])) or
+                       (fc[0] == "variant" and fc[2] == "Some" and og.show(fc[1]) == "param#2@patch_with_options.f:%s" % name) for fc in facts_at(ctx, b, bb))
             if some and s == "param#2@patch_with_options.f:%s.v:Some.f:0" % name:
                 rr.ok("%s: CLI value if given, else unchanged" % name, sample={"rule": "CF", "option": name, "write": s, "guard": "options.%s.is_some()" % name})
             else:
